@@ -3,7 +3,7 @@
    Model: coq/Model/Tsl.v (hand model of snaxc/ir/tsl/* and TiledStridedLayoutAttr.get_affine_map),
    tied to the code by the L1 correspondence in harness/props/c10.py on every run.
    `layout_okb l` = every stride static with bound > 0 (any rank, any tile depth, any steps). *)
-From Snax Require Import Base.Prelude Model.Tsl Model.TslText Proofs.TslProofs Proofs.TslProofs2 Proofs.TslProofs3 Proofs.TslTextProofs.
+From Snax Require Import Base.Prelude Model.Tsl Model.TslText Proofs.TslProofs Proofs.TslProofs2 Proofs.TslProofs3 Proofs.TslTextProofs Model.TslOps Proofs.TslOpsProofs.
 From Coq Require Import Permutation.
 
 (* 1. The affine map used for stream address generation, evaluated over the row-major index box,
@@ -80,6 +80,36 @@ Theorem C10_print_parse_refuted_dynamic_offset :
   exists l, tstrides l <> [] /\ parse_layout (print_layout l ++ [TGreater]) <> Some l.
 Proof. exact print_parse_refuted_dynamic_offset. Qed.
 Print Assumptions C10_print_parse_refuted_dynamic_offset.
+
+(* 7. Run-time views used for DMA loop nests: the values computed by the emitted bound ops / step ops
+      are the layout's bounds and (byte-scaled) steps for static layouts; a dynamic outermost bound is
+      recovered exactly from the run-time size when that size is a multiple of the inner tile. *)
+Theorem C10_bound_step_ops_static :
+  forall l shape el, layout_okb l = true -> length shape = length (tstrides l) ->
+  bound_vals (tstrides l) shape = Some (map (map sbound_of) (tstrides l)) /\
+  step_vals l (map (map sbound_of) (tstrides l)) el = map (fun s => sstep_of s * el) (all_strides l).
+Proof.
+  intros l shape el H Hlen. exact (bound_step_ops_static l shape el (proj1 (layout_okb_ok l) H) Hlen).
+Qed.
+Print Assumptions C10_bound_step_ops_static.
+
+Theorem C10_dynamic_bound_recovered :
+  forall st rest b0, tstride_ok rest -> 0 <= b0 ->
+  dim_bound_vals ((st, None) :: rest) (b0 * bounds_prod rest) = Some (b0 :: map sbound_of rest).
+Proof. exact dim_bound_vals_dynamic. Qed.
+Print Assumptions C10_dynamic_bound_recovered.
+
+(* 8. Subview pointer arithmetic: for a tile-aligned dynamic offset the pointer adjustment equals the
+      layout address of that offset (in bytes); refuted without alignment (precondition of the lowering). *)
+Theorem C10_subview_pointer :
+  forall t el off, tstride_ok t -> (bounds_prod (tl t) | off) -> subview_contrib t el off = dim_addr t off * el.
+Proof. exact subview_contrib_addr. Qed.
+Print Assumptions C10_subview_pointer.
+
+Theorem C10_subview_pointer_refuted_unaligned :
+  exists t el off, tstride_ok t /\ 0 <= off < bounds_prod t /\ subview_contrib t el off <> dim_addr t off * el.
+Proof. exact subview_contrib_refuted_unaligned. Qed.
+Print Assumptions C10_subview_pointer_refuted_unaligned.
 
 (* ---- non-vacuity ------------------------------------------------------------------ *)
 Example C10_nonvacuous_canonicalize :
